@@ -1,7 +1,16 @@
 (* C19 — work per round is bounded by input size. Statements only; proofs in proofs/CostProofs.v.
    These are theorems about cost MODELS (bytes copied / digits materialised); the models are tied to the code by
    measurement (projection `cost`), which is why this property is labelled partial. *)
-From DS Require Import Base Decimal Cost CostProofs.
+From DS Require Import Base Decimal Wire Cost CostProofs WireWork.
+
+(* on the wire model itself (Wire.parse_fields, the parser every modelled decoder uses): the embedded pieces of a
+   message are disjoint pieces of it, so parsing a message and recursively every embedded message down to nesting depth
+   d touches at most (d + 1) times the input; the observation schema has depth 6 once the D7 guard bounds the nesting *)
+Theorem C19_embedded_pieces_disjoint : forall bs fs, parse_fields bs = Some fs -> (fields_len fs <= length bs)%nat.
+Proof. exact parse_fields_total. Qed.
+Theorem C19_decode_work_linear : forall d bs, (work d bs <= (d + 1) * length bs)%nat.
+Proof. exact work_linear. Qed.
+Print Assumptions C19_decode_work_linear.
 
 (* decoding nested timestamped values with the depth guard (D7 repaired): at most 4 copies of the input, at any depth *)
 Theorem C19_decode_cost_linear : forall t, (cost_guarded t <= 4 * nsize t)%nat.
